@@ -61,7 +61,8 @@ pub struct CoCase {
     /// Co: the stream's script (Yield = item). Vec: only the number of Yields counts.
     pub src_script: Vec<Step>,
     /// the source stream reports an exact size_hint
-    pub src_hint: bool,
+    /// 0 = none, 1 = exact, 2 = honest but inexact
+    pub src_hint: u8,
     pub stack: Vec<Adapter>,
     pub terminal: Terminal,
     /// work[stage][item]: script of the future the closure of `stage` returns
@@ -115,7 +116,7 @@ impl CoCase {
             SourceKind::Co => format!(
                 "stream<{}{}>.co()",
                 self.src_script.iter().map(step).collect::<Vec<_>>().join(" "),
-                if self.src_hint { " exact-size_hint" } else { "" }
+                match self.src_hint { 1 => " exact-size_hint", 2 => " inexact-size_hint", _ => "" }
             ),
             SourceKind::Vec => format!("vec[{}].into_co_stream()", self.n_items()),
         };
@@ -243,7 +244,7 @@ impl WorkCore {
             let script = item.and_then(|i| w.co.scripts.get(stage).and_then(|s| s.get(i))).map(|l| l.script.clone()).unwrap_or_default();
             let idx = w.co.works.len();
             w.tick();
-            let id = w.new_node(top, idx, NodeKind::Leaf { flavor, script, pos: 0, always: false, hint: false, dropwake: false });
+            let id = w.new_node(top, idx, NodeKind::Leaf { flavor, script, pos: 0, always: false, hint: 0, dropwake: false });
             w.nodes[id].item = item;
             if w.trace_on {
                 let p = w.path(id);
@@ -891,7 +892,7 @@ fn gen_work(c: &mut Cur, p: &Profile, fallible: bool) -> LeafSpec {
         let ok = !(fallible && c.coin(p.p_err));
         script.push(if ok && c.coin(20) { Step::WakeYield } else { Step::Yield(ok) });
     }
-    LeafSpec { script, always: false, hint: false, dropwake: false }
+    LeafSpec { script, always: false, hint: 0, dropwake: false }
 }
 
 pub fn gen_co_case(bytes: &[u8], cp: &CoProfile) -> CoCase {
@@ -967,7 +968,7 @@ pub fn gen_co_case(bytes: &[u8], cp: &CoProfile) -> CoCase {
         for a in stack.iter_mut() {
             if let Adapter::Limit(l) = a {
                 if c.coin(150) {
-                    *l = [8usize, 33, 62, 64, 95, 96, 200][c.choice(7)];
+                    *l = if n >= 1100 && c.coin(110) { 1025 } else { [8usize, 33, 62, 64, 95, 96, 200][c.choice(7)] };
                 }
             }
         }
@@ -1028,7 +1029,7 @@ pub fn gen_co_case(bytes: &[u8], cp: &CoProfile) -> CoCase {
             }
         }
     }
-    let src_hint = source == SourceKind::Co && c.coin(100);
+    let src_hint = if source == SourceKind::Co { c.weighted(&[(0u8, 140), (1, 60), (2, 56)]) } else { 0 };
     let mut sp = p.clone();
     sp.p_drop = cp.p_drop;
     let schedule = gen_schedule(&mut c, &sp);
